@@ -11,6 +11,8 @@ THEOREMS = ["AsynqModel.Core." + n for n in (
     "C08_active_none_at_top_always", "C08_active_none_at_top", "C08_guard_resets", "C08_guard_step", "C08_guard_only",
     "C08_active_always", "Spec_C08_accepts", "Spec_C08_accepts_spec", "Spec_C08_accepts_clean", "Spec_C08_accepts_partial",
     "Spec_C08_live_source")]
+LEAN_MODULES = LEAN_MODULES + ['AsynqModel.Theorems.C08b', 'AsynqModel.Theorems.AuditFixes']
+THEOREMS = THEOREMS + ["AsynqModel.Core." + n for n in ['C08_no_stale_batch', 'C08_no_stale_batch_trace', 'Spec_C08_accepts_nonasync_free', 'Spec_C08_accepts_nonasync_free_run', 'C08_fresh_state', 'C08_unflushed_is_current', 'C08_leftover_iff', 'C08_dead_entries_invisible', 'C08_fresh_equiv']]
 MIX = [('full',4),('sync',3),('yield_err',1),('nonasync',1)]
 RULE = ("grammar-generated task programs (profiles %s; trees and DAGs of tasks, 1-3 batch kinds with priority overrides "
         "and raising flushes, nested yield structures, errors, try/except, synchronous re-entry, contexts) interpreted on "
